@@ -124,7 +124,10 @@ impl<'xml> Deserializer<'xml> {
                 }
 
                 // ignore the others
-                Event::Comment(_) | Event::CData(_) | Event::Decl(_) | Event::PI(_) | Event::DocType(_) => continue,
+                // a CDATA section is character data, just spelled differently
+                Event::CData(x) => DeEvent::Text(x.escape().map_err(|e| invalid_xml(e.into()))?),
+
+                Event::Comment(_) | Event::Decl(_) | Event::PI(_) | Event::DocType(_) => continue,
             };
             break Ok(de);
         }
@@ -271,7 +274,20 @@ impl<'xml> Deserializer<'xml> {
             }
             DeEvent::Text(x) => {
                 self.consume_peeked();
-                f(x)
+                // The character data of an element may arrive in several pieces:
+                // comments, processing instructions and CDATA sections split it.
+                let mut pieces: Option<Vec<u8>> = None;
+                while let DeEvent::Text(y) = self.peek_event()? {
+                    self.consume_peeked();
+                    pieces.get_or_insert_with(|| x.to_vec()).extend_from_slice(&y);
+                }
+                match pieces {
+                    None => f(x),
+                    Some(bytes) => {
+                        let escaped = String::from_utf8(bytes).map_err(|_| DeError::InvalidContent)?;
+                        f(BytesText::from_escaped(escaped))
+                    }
+                }
             }
             DeEvent::Eof => {
                 self.consume_peeked();
